@@ -3,6 +3,7 @@
 package actionlint
 
 import (
+	"io"
 	"regexp"
 	"strconv"
 )
@@ -274,7 +275,7 @@ func HarnessC15MultiRepo() {
 	wf := "on: push\njobs:\n  j:\n    runs-on: ubuntu-latest\n    steps:\n      - run: echo ${{ unknown.x }}\n      - run: echo ${{ github.nope }}\n"
 	paths := []string{"/r/.github/workflows/a.yml", "/s/.github/workflows/b.yml"}
 	if verifIsNative() {
-		verifC15NativeMultiRepo(wf, verifChoose("order", 2))
+		verifC15NativeMultiRepo(wf, verifChoose("order", 2), verifChoose("format", 2))
 		return
 	}
 	verifC10Files = map[string]string{paths[0]: wf, paths[1]: wf}
@@ -296,12 +297,29 @@ func HarnessC15MultiRepo() {
 	}
 	ord := [][]int{{0, 1}, {1, 0}}[verifChoose("order", 2)]
 	l := &Linter{projects: NewProjects(), cwd: "", out: nil}
+	if verifChoose("format", 2) == 1 {
+		// -format: the diagnostics go through the template printer (replaced by
+		// a counter here); what LintFiles returns is the same list
+		l.errFmt = &ErrorFormatter{rules: map[string]*ruleTemplateFields{}}
+		verifC15Printed = -1
+		verifOverride("(*ErrorFormatter).Print", verifC15Print)
+	}
 	errs, err := l.LintFiles([]string{paths[ord[0]], paths[ord[1]]}, nil)
 	verifCheck(err == nil, "lint-failed")
 	verifReach("linted")
+	if l.errFmt != nil {
+		verifCheck(verifC15Printed == len(errs), "formatted-output-and-returned-diagnostics-differ")
+	}
 	for k, p := range paths {
 		verifCheckf(verifC10Digest(errs, p) == single[k], "file-filtered-by-another-repository's-configuration", p)
 	}
+}
+
+var verifC15Printed int
+
+func verifC15Print(f *ErrorFormatter, out io.Writer, t []*ErrorTemplateFields) error {
+	verifC15Printed = len(t)
+	return nil
 }
 
 // HarnessC15IgnoreItems: the `ignore` list of a `paths` entry in actionlint.yaml
